@@ -91,6 +91,8 @@ def parseTOp (s : String) : Option TClient.Op :=
   | ["fwd"] => some (.fwd 1)
   | ["fwd", n] => do some (.fwd (← n.toNat?))
   | ["hold", n] => do some (.hold (← n.toNat?))
+  | ["await", n] => do some (.await (← n.toNat?))
+  | ["bump"] => some .bump
   | ["cur"] => some .cur
   | ["min"] => some .min
   | _ => none
@@ -100,6 +102,7 @@ def topName : TClient.Op → String × Nat
   | .guard v => ("guard", v) | .unguard v => ("unguard", v) | .gpe v => ("gpe", v)
   | .relist v => ("relist", v) | .gepoch v => ("gepoch", v) | .fwd _ => ("fwd", 0)
   | .cur => ("cur", 0) | .min => ("min", 0) | .hold _ => ("hold", 0)
+  | .await _ => ("await", 0) | .bump => ("bump", 0)
 
 def threadRes (seq : Bool) (tid : Nat) (s : ThreadMon) (op? : Option TClient.Op) (tok : String) : ThreadMon :=
   match op? with
